@@ -388,6 +388,14 @@ func famZ7(modes []modeSpec, k int) []xferCase {
 				Spec: &xferSpec{A: a, B: b, Faults: allFaults, PauseReader: 3 * time.Second, NoSackComplete: true,
 					Streams: []streamSpec{{SID: 1, From: 0, Msgs: msgs}}},
 			})
+			// the same with a write deadline that expires while the window is closed: the writes
+			// that give up leave no trace, those accepted before and after are all delivered
+			out = append(out, xferCase{
+				Name: fmt.Sprintf("Z7/%s/block-deadline/size%d", mode.Name, sz),
+				K:    0,
+				Spec: &xferSpec{A: a, B: b, Faults: allFaults, PauseReader: 3 * time.Second, NoSackComplete: true, WriteTimeout: 500 * time.Millisecond,
+					Streams: []streamSpec{{SID: 1, From: 0, Msgs: msgs}}},
+			})
 		}
 	}
 	return out
